@@ -7,8 +7,11 @@
 package clusters
 
 import (
+	"reflect"
+	"sync"
 	"sync/atomic"
 	"time"
+	"unsafe"
 
 	proxyv1alpha1 "github.com/kubewharf/kubegateway/pkg/apis/proxy/v1alpha1"
 )
@@ -32,20 +35,104 @@ func VerifCreateClusterInfo(cluster *proxyv1alpha1.UpstreamCluster, healthCheck 
 // VerifSetHealthCheckInterval changes the ticker interval used by health checks started from now on.
 func VerifSetHealthCheckInterval(c *ClusterInfo, d time.Duration) { c.healthCheckInterval = d }
 
-// VerifLoadbalancer is a snapshot of the round-robin cursors: key (fmt "%v" of the ready []*EndpointInfo) -> value.
-func VerifLoadbalancer(c *ClusterInfo) map[string]uint64 {
+// The round-robin cursors are reached by ROLE, not by representation: "the field of ClusterInfo named loadbalancer is one
+// shared table string -> counter". Today it is a sync.Map of *uint64; a mutex-guarded map[string]uint64 (or *uint64) inside a
+// small struct is read and written just as well. If the table cannot be recognised the accessors say so (ok = false) and the
+// harness goes on without the cursor comparisons instead of not building.
+
+func verifCursorTable(c *ClusterInfo) (table reflect.Value, lock sync.Locker, ok bool) {
+	f := reflect.ValueOf(c).Elem().FieldByName("loadbalancer")
+	if !f.IsValid() || !f.CanAddr() {
+		return reflect.Value{}, nil, false
+	}
+	f = reflect.NewAt(f.Type(), unsafe.Pointer(f.UnsafeAddr())).Elem() // drop the read-only flag of an unexported field
+	for f.Kind() == reflect.Ptr {
+		if f.IsNil() {
+			return reflect.Value{}, nil, false
+		}
+		f = f.Elem()
+	}
+	if f.Type() == reflect.TypeOf(sync.Map{}) {
+		return f, nil, true
+	}
+	if f.Kind() != reflect.Struct {
+		return reflect.Value{}, nil, false
+	}
+	for i := 0; i < f.NumField(); i++ {
+		x := reflect.NewAt(f.Field(i).Type(), unsafe.Pointer(f.Field(i).UnsafeAddr())).Elem()
+		if l, isLock := x.Addr().Interface().(sync.Locker); isLock && lock == nil {
+			lock = l
+		}
+		if x.Kind() == reflect.Map && x.Type().Key().Kind() == reflect.String {
+			if e := x.Type().Elem(); e.Kind() == reflect.Uint64 || (e.Kind() == reflect.Ptr && e.Elem().Kind() == reflect.Uint64) {
+				table = x
+			}
+		}
+	}
+	return table, lock, table.IsValid()
+}
+
+// VerifLoadbalancer is a snapshot of the round-robin cursors: key (scope + fmt "%v" of the ready []*EndpointInfo) -> value.
+func VerifLoadbalancer(c *ClusterInfo) (map[string]uint64, bool) {
+	t, lock, ok := verifCursorTable(c)
+	if !ok {
+		return nil, false
+	}
 	res := map[string]uint64{}
-	c.loadbalancer.Range(func(k, v interface{}) bool {
-		res[k.(string)] = atomic.LoadUint64(v.(*uint64))
-		return true
-	})
-	return res
+	if m, isSyncMap := t.Addr().Interface().(*sync.Map); isSyncMap {
+		m.Range(func(k, v interface{}) bool {
+			ks, ok1 := k.(string)
+			p, ok2 := v.(*uint64)
+			if !ok1 || !ok2 {
+				ok = false
+				return false
+			}
+			res[ks] = atomic.LoadUint64(p)
+			return true
+		})
+		return res, ok
+	}
+	if lock != nil {
+		lock.Lock()
+		defer lock.Unlock()
+	}
+	for it := t.MapRange(); it.Next(); {
+		v := it.Value()
+		if v.Kind() == reflect.Ptr {
+			if v.IsNil() {
+				continue
+			}
+			v = v.Elem()
+		}
+		res[it.Key().String()] = v.Uint()
+	}
+	return res, true
 }
 
 // VerifSetCursor stores a cursor value under a key (used to start round-robin runs from arbitrary cursors).
-func VerifSetCursor(c *ClusterInfo, key string, v uint64) {
+func VerifSetCursor(c *ClusterInfo, key string, v uint64) bool {
+	t, lock, ok := verifCursorTable(c)
+	if !ok {
+		return false
+	}
 	x := v
-	c.loadbalancer.Store(key, &x)
+	if m, isSyncMap := t.Addr().Interface().(*sync.Map); isSyncMap {
+		m.Store(key, &x)
+		return true
+	}
+	if lock != nil {
+		lock.Lock()
+		defer lock.Unlock()
+	}
+	if t.IsNil() {
+		t.Set(reflect.MakeMap(t.Type()))
+	}
+	if t.Type().Elem().Kind() == reflect.Ptr {
+		t.SetMapIndex(reflect.ValueOf(key), reflect.ValueOf(&x))
+	} else {
+		t.SetMapIndex(reflect.ValueOf(key), reflect.ValueOf(x))
+	}
+	return true
 }
 
 // VerifEndpointState reads the status and health-check bookkeeping of one endpoint.
